@@ -51,9 +51,10 @@ pub fn op_alphabet(f: Family, level: u8) -> Vec<Op> {
 
 pub fn contexts(level: u8) -> Vec<(Vec<u8>, Vec<u8>)> {
 	// "//h:" : an authority ending with ':' (empty port)
-	let mut pre: Vec<&str> = vec!["", "s:", "//h", "s://h", "//h:"];
+	// "//": an EMPTY authority without scheme (the path window starts at offset 2)
+	let mut pre: Vec<&str> = vec!["", "s:", "//h", "s://h", "//h:", "//"];
 	if level >= 1 {
-		pre.extend(["//", "s://", "//u@[::1]:8"]);
+		pre.extend(["s://", "//u@[::1]:8"]);
 	}
 	let mut out = Vec::new();
 	for p in pre {
